@@ -100,11 +100,16 @@ fn main() {
             }
         }
         "memreplay" => {
-            // symx memreplay <cell_bytes> <size> <offset> <start> <end>: native replay of a geometry
+            // symx memreplay <cell_bytes> <size> <offset> <start> <end> [check|ptr]: native replay of a geometry
             // counterexample of the E5 lemmas through the public Memory API
             let v: Vec<i64> = args[2..].iter().filter_map(|s| s.parse().ok()).collect();
             if v.len() < 5 {
                 usage();
+            }
+            match args.get(7).map(|s| s.as_str()) {
+                Some("check") => exit(props::memreplay_mode(v[0] as u32, v[1], v[2], v[3], false)),
+                Some("ptr") => exit(props::memreplay_mode(v[0] as u32, v[1], v[2], v[3], true)),
+                _ => {}
             }
             exit(props::memreplay(v[0] as u32, v[1], v[2], v[3], v[4]));
         }
